@@ -69,12 +69,22 @@ struct ParameterTraits<cntgs::AlignAs<T, Alignment>>
         return std::pair{result, address + VALUE_BYTES};
     }
 
-    template <std::size_t PreviousTrailingAlignment, bool, class Arg>
+    template <std::size_t PreviousTrailingAlignment, bool IgnoreAliasing, class Arg>
     static std::byte* store(Arg&& arg, std::byte* address, std::size_t)
     {
         address = detail::align_if<(PreviousTrailingAlignment < ALIGNMENT), ALIGNMENT>(address);
         assert(detail::is_aligned(address, ALIGNMENT));
-        detail::construct_at(reinterpret_cast<T*>(address), std::forward<Arg>(arg));
+        if constexpr (!IgnoreAliasing && std::is_same_v<T, Arg> && !std::is_trivially_copyable_v<T>)
+        {
+            // Relocation within the same block: source and target may overlap, see uninitialized_range_construct.
+            T temporary(std::move(arg));
+            arg.~T();
+            detail::construct_at(reinterpret_cast<T*>(address), std::move(temporary));
+        }
+        else
+        {
+            detail::construct_at(reinterpret_cast<T*>(address), std::forward<Arg>(arg));
+        }
         return address + VALUE_BYTES;
     }
 
